@@ -17,12 +17,11 @@ RULE = (" || end-to-end part: fedlab cases (seed, index) with all knobs (KnobsFo
         "one faulted run of one (case, option set); it is non-trivial when the data differs from the fault-free data.")
 
 # clause -> known-finding keys that explain a violation of it when the root cause is present in the run
+# (nan-accepted, entity-count-ignored and nullable-requires-null-sent are repaired in loader.go: no mapping any more)
 TABLE = {
-    "valid_response": ["nan-accepted"],
-    "errors_nonempty": ["status-ignored-with-data", "entity-count-ignored"],
-    "affected_null": ["status-ignored-with-data", "entity-count-ignored", "nan-accepted"],
-    "requests_subset": ["nullable-requires-null-sent", "nan-accepted"],
-    "unaffected_equal": ["multifetch-skip-drops-healthy-entries", "nan-accepted"],
+    "errors_nonempty": ["status-ignored-with-data"],
+    "affected_null": ["status-ignored-with-data"],
+    "unaffected_equal": ["multifetch-skip-drops-healthy-entries"],
 }
 CLAUSES = ["valid_response", "returns", "errors_nonempty", "requests_subset", "independent_subgraphs_untouched",
            "unaffected_equal", "affected_null"]
